@@ -565,6 +565,13 @@ class SInt(Sym):
             return SInt(r, s.is_float)
         raise Unsupported('pow of symbolic int')
 
+    def bit_length(self):
+        a = z3.If(self.z < 0, -self.z, self.z)
+        e = z3.IntVal(129)
+        for k in range(128, -1, -1):
+            e = z3.If(a < 2 ** k, z3.IntVal(k), e)
+        return SInt(e)
+
     def __index__(self):
         raise Unsupported('__index__ on symbolic int (C consumer)')
 
